@@ -103,7 +103,7 @@ def run_stdout(ctx, section, g, recs, order, bgzf_in, d):
 
 
 def run(ctx):
-    ctx.bound("text variants: 3 plain inputs (UTF-8 read names, UTF-8 Z value, CRLF line ends) of 12 records")
+    ctx.bound("text variants: 3 plain inputs (UTF-8 read names, UTF-8 Z value, CRLF line ends) of 12 records; one input over a graph whose contig names contain ':' '-' '#'")
     text_variants(ctx)
     rng = ctx.rng
     # ---- 1. exhaustive over a fixed graph: every walk of <= 3 steps x every (start,end) ------------------------------------------
@@ -217,7 +217,13 @@ def text_variants(ctx):
         "utf8-z-value": ([(w, s, e, f + ["co:Z:caf\u00e9 \u2713"]) for (w, s, e, f) in base], "\n"),
         "crlf": (base, "\r\n"),
     }
+    # a reference contig whose name contains ':' and '-' (valid Z value, e.g. a sub-region name): the sn:Z tag must carry it whole
+    # (added after seeded change C09-3)
+    gc = sortlib.fixed_graph(rename={"chr1": "chr1:1000-30000", "chr2": "HG002#1#chr2"})
+    variants["contig-name-with-colon"] = (base, "\n")
     for name, (recs, eol) in variants.items():
+        if name == "contig-name-with-colon":
+            g = gc
         d = ctx.dir("c09t")
         gfa = os.path.join(d, "g.gfa")
         g.write(gfa)
